@@ -35,7 +35,8 @@
 // The abstract interpretation is path-insensitive: after an `if` whose body ends in return/continue the state
 // of the other branch continues; otherwise the two states are joined (held ⊔ free = free, dirty = or,
 // region = max).  Function literals are walked where they are written (effects inside carry the state of
-// that point; their return statements are not rows).
+// that point; their return statements are not rows); the body of `go func(){..}()` and of a deferred closure
+// carries lk = free.
 package main
 
 import (
@@ -607,12 +608,25 @@ func (w *walker) stmt(s ast.Stmt) (terminated bool) {
 	case *ast.ExprStmt:
 		w.expr(x.X, false)
 	case *ast.GoStmt:
+		if lit, ok := x.Call.Fun.(*ast.FuncLit); ok {
+			// the body runs on another goroutine: whatever this one holds, that one does not
+			for _, a := range x.Call.Args {
+				w.expr(a, false)
+			}
+			w.detached(lit)
+			return false
+		}
 		w.expr(x.Call, true)
 	case *ast.DeferStmt:
 		if sel, ok := x.Call.Fun.(*ast.SelectorExpr); ok && w.isMu(sel.X) && sel.Sel.Name == "Unlock" {
 			w.direct, w.lockOps = true, true
 			w.emit(Row{Kind: "deferUnlock"}, x.Pos())
 			w.st.deferred = true
+			return false
+		}
+		if lit, ok := x.Call.Fun.(*ast.FuncLit); ok {
+			// runs at return time, after any explicit Unlock of the paths in between: not known to be under the lock
+			w.detached(lit)
 			return false
 		}
 		w.expr(x.Call, false)
@@ -785,6 +799,17 @@ func (w *walker) stmt(s ast.Stmt) (terminated bool) {
 		w.expr(x.Value, false)
 	}
 	return false
+}
+
+// detached walks a function literal that does not run here and now (go statement, deferred closure): its rows
+// carry lk = free.
+func (w *walker) detached(lit *ast.FuncLit) {
+	saved := w.st
+	w.st.lk = "free"
+	w.inLit++
+	w.block(lit.Body.List)
+	w.inLit--
+	w.st = saved
 }
 
 func (w *walker) loop(body *ast.BlockStmt, post ast.Stmt) {
